@@ -498,6 +498,30 @@ class _Flip:
         return da.flip(a[0], s["axis"])
 
 
+@op("getitem_dask0d", "index")
+class _GetitemDask0d:
+    """x[k] with k a lazily computed 0-d integer array (the argmax of another variable)."""
+
+    @staticmethod
+    def gen(D_, vals):
+        i = _pick(D_, vals, lambda v: v.ndim >= 1 and v.shape[0] >= 1)
+        if i is None:
+            return None
+        n = vals[i].shape[0]
+        cands = [j for j, w in enumerate(vals) if w.ndim == 1 and 1 <= w.size <= n and w.dtype.kind in "iuf" and _exactly_comparable(w)]
+        if not cands:
+            return None
+        return {"op": "getitem_dask0d", "args": [i, D_.choice(cands)]}
+
+    @staticmethod
+    def np(s, a):
+        return np.asarray(a[0][int(np.argmax(a[1]))])
+
+    @staticmethod
+    def da(s, a):
+        return a[0][a[1].argmax()]
+
+
 @op("diagonal", "index")
 class _Diagonal:
     """np.diagonal / np.trace: layers that address source blocks by computed (NumPy-integer) coordinates."""
